@@ -29,6 +29,19 @@ PROPS["C04"] = {
     ],
 }
 
+PROPS["C05"] = {
+    "technique": "property-based testing (rapid): generated signature multisets vs set-of-(prefix,hash) model, three reader kinds, two file formats",
+    "level_text": "Generated-input search: signature multisets are generated per two-byte prefix with bucket populations 0,1,2,3,..,2^k-1,2^k,2^k+1, duplicates, edge prefixes, 1..1500 prefixes and three insertion orders; after Seal every added signature must be present through mmap, os.File and in-memory readers, Writer.Has must agree with the sealed file, and a positive answer on a probe requires a (prefix,hash) of the model. Exploration level.",
+    "level_note": "Trusted: sha-256 derivation of signatures from drawn seeds; the package's exported Hash() is used only for the 'present only if hash-equal' direction. Truncated/corrupt files are judged by C12/C13.",
+    "rule": ("rapid draws a shape class, a seed, per-prefix bucket specs (prefix, population from {0..9,15..17,31..33,..,255..257,1000}, duplicates), insertion order and metadata size; "
+             "signatures are derived from the seed; 200 absent probes per case, half forced into populated prefixes. non-trivial = some bucket with >=3 distinct hashes and >=1 duplicate; distinct by case hash"),
+    "assumptions": ["sha-256 derivation of signatures", "xxhash via the package's exported Hash for the model"],
+    "units": [
+        {"name": "current", "pkg": "./bucketteer", "run": "TestVfC05", "checks": T(120, 1600), "shards": T(4, 16), "timeout": T(600, 3000), "env": {"GOGC": "off"}},
+        {"name": "legacy", "pkg": "./deprecated/bucketteer", "run": "TestVfC05Legacy", "checks": T(300, 8000), "shards": T(3, 8), "timeout": T(600, 3000)},
+    ],
+}
+
 
 # properties not (yet) claimed by a check; kept current by hand
 NOT_APPLICABLE = [
